@@ -55,7 +55,7 @@ def plan(tier, seed):
 
 def mandatory_bins(tier):
     b = ["offset_%d" % o for o in OFFSETS] + ["offset_random", "tag_order_not_sorted", "encrypted_component", "zero_components", "eight_tags",
-         "text_stream", "text_path", "bec2", "appnote_scripts", "block_cust_opened", "block_update_opened", "block_ecc_opened", "customer_key_in_slot", "histories_under_layout_hooks", "second_export_after_in_place_mutation", "more_than_255_components"]
+         "text_stream", "text_path", "bec2", "appnote_scripts", "block_cust_opened", "block_update_opened", "block_ecc_opened", "customer_key_in_slot", "histories_under_layout_hooks", "second_export_after_in_place_mutation", "more_than_255_components", "directory_larger_than_64k", "bec2_without_auth_blocks"]
     b += ["blocks_" + "+".join(l) for l in GB.all_block_lists()]
     return b
 
@@ -71,7 +71,7 @@ def gen_case_c03(rng):
         blob = G.gen_payload(rng)
         if rng.random() < 0.12:
             blob = rng.randbytes(rng.choice((1024, 1025, 1040, 2048, 2049, 4100)))
-        desc = [(0xC3, b"\x03"), (0xC2, b"\x02"), (0xC1, b"\x03"), (0xC5, b"\x01")] if rng.random() < 0.7 else G.gen_desc(rng) + [(0xC2, b"\x02")]
+        desc = [(0xC3, b"\x03"), (0xC2, b"\x02"), (0xC1, b"\x03"), (0xC5, b"\x01")] if rng.random() < 0.7 else [(t, v) for t, v in G.gen_desc(rng, maxbytes=207) if t != 0xC2] + [(0xC2, b"\x02")]
         if len({t for t, _ in desc}) == len(desc):
             case.comps.insert(rng.randrange(len(case.comps) + 1), MComp(desc, blob, len(blob), True))
     if rng.random() < 0.1:
@@ -150,7 +150,10 @@ def run_bec2(ns, ctx, mon, case, key, specs, scratch, idx):
             f.write_file(buf, encs)
             ctx.bin("text_stream")
     except Exception as e:
-        ctx.violation("writer_raises_on_object_in_domain", {"exc": fmt_exc(e)}, rp)
+        if any(len(c.desc_bytes()) > 210 for c in case.comps):
+            ctx.note("writer_refused_oversize_description")
+        else:
+            ctx.violation("writer_raises_on_object_in_domain", {"exc": fmt_exc(e)}, rp)
         return
     if mon.last_bec2 is None:
         return  # the hook already reported why
@@ -216,6 +219,16 @@ def run_shard(spec, ctx):
                     many = G.Case([], [MComp([(1, bytes([j % 256]))], bytes([j % 251 + 1]) * (1 + j % 3), None, False) for j in range(258)])
                     ctx.bin("more_than_255_components")
                     run_bf3(ns, ctx, mon, many, key, 5, scratch, 3)
+                    # a directory of more than 64 KiB (size field and addresses beyond 2^16)
+                    huge = G.Case([], [MComp([(2, bytes([j % 256, j // 256]))], bytes([1 + j % 200]), None, False) for j in range(1400)])
+                    ctx.bin("directory_larger_than_64k")
+                    run_bf3(ns, ctx, mon, huge, key, 0, scratch, 3)
+                    # BEC2 framing without any auth block: signature, 00 00, body
+                    f0 = ns.bec2file.Bec2File(G.build_real(ns, G.gen_case(rng, ncomp=2)), (), key)
+                    ctx.bin("bec2_without_auth_blocks")
+                    mon.current_replay = {"kind": "bec2_no_blocks"}
+                    f0.to_binary()
+                    f0.write_file(io.StringIO())
                 if i == 0:
                     ctx.sample({"kind": "bf3", "offset": off, "key": key, "case": case.to_json()})
             return
